@@ -288,6 +288,11 @@ func (rb *RingBuffer) DiscardStride(stride uint64) (err error) {
 	if newRp%stride > 0 {
 		newRp -= newRp % stride
 	}
+	if newRp < rb.desc.readPointer {
+		// No multiple of stride lies between the read and write pointers. Moving the read
+		// pointer backwards would deliver bytes a second time, so leave it where it is.
+		return nil
+	}
 	rb.desc.readPointer = newRp
 	return nil
 }
